@@ -69,9 +69,9 @@ def run(ctx: Check) -> int:
     def impl_id(p):
         return [enc(agg.create_engine_id(_msg(p[0], p[1])))]
 
-    out, mout = ctx.correspond("engine-id", "engineid", pairs, lambda p: [f"id\t{enc(p[0])}\t{enc(p[1])}"], impl_id,
+    out, mout = ctx.correspond("engine-id", "EngineId", pairs, lambda p: [f"id\t{enc(p[0])}\t{enc(p[1])}"], impl_id,
                          nontrivial=lambda p, o: any(ch in (p[0] + p[1]) for ch in "_%") or not (p[0] + p[1]).isascii())
-    ctx.selftest("engine-id", "engineid", pairs, lambda p: [f"idold\t{enc(p[0])}\t{enc(p[1])}"], mout)
+    ctx.selftest("engine-id", "EngineId", pairs, lambda p: [f"idold\t{enc(p[0])}\t{enc(p[1])}"], mout)
     for p in pairs:
         ctx.count("has_sep" if "_" in p[0] + p[1] else "no_sep")
 
@@ -105,7 +105,7 @@ def run(ctx: Check) -> int:
         conn = ";".join(enc(x) for x in r["connected"])
         return [f"reg\t{encb(r['secret'])}\t{encb(r['version'])}\t{encb(r['ignore'])}\t{enc(r['c'])}\t{enc(r['u'])}\t{conn}"]
 
-    ctx.correspond("register", "engineid", regs, reg_line, impl_reg,
+    ctx.correspond("register", "EngineId", regs, reg_line, impl_reg,
                    nontrivial=lambda r, o: bool(r["connected"]))
 
     # property oracle on the implementation, independent of the model: collisions among generated pairs
